@@ -74,7 +74,7 @@ type mcfg struct {
 
 func (m mcfg) hasReq() bool {
 	for _, k := range m.Alphabet {
-		if k == "R" || strings.HasPrefix(k, "Rm") {
+		if strings.HasPrefix(k, "R") {
 			return true
 		}
 	}
@@ -99,6 +99,31 @@ func (m mcfg) edit(inline bool) func(string) string {
 var allKinds = []string{"S", "Smiss", "Snull", "Ka", "Kbc", "Kboth", "Kanull", "Kb", "N", "Nbad", "Nmiss",
 	"Mid", "Malt", "Mmiss", "R", "Rm", "Rmnull", "U", "T0"}
 
+// the fields the @requires field of each probe type needs, in SDL order
+var reqFields = map[string][]string{"R": {"w"}, "Rm": {"w"}, "R2": {"w", "n"}, "Rm2": {"w", "n"}, "R3": {"w", "n", "l"}, "Rm3": {"w", "n", "l"}}
+
+// reqKinds("R3", "Rm3") = the kinds "<T>" and "<T>:<j><b|n|a>" (j-th required value bad / null / absent)
+func reqKinds(bases ...string) []string {
+	var out []string
+	for _, b := range bases {
+		out = append(out, b)
+		for j := range reqFields[b] {
+			for _, c := range []string{"b", "n", "a"} {
+				out = append(out, fmt.Sprintf("%s:%d%s", b, j+1, c))
+			}
+		}
+	}
+	return out
+}
+
+// splitKind("Rm3:2n") = ("Rm3", 2, "n"); ("S", 0, "") for kinds without a modifier
+func splitKind(k string) (string, int, string) {
+	if i := strings.Index(k, ":"); i > 0 && len(k) == i+3 {
+		return k[:i], int(k[i+1] - '0'), k[i+2:]
+	}
+	return k, 0, ""
+}
+
 func modelConfigs(thorough bool) []mcfg {
 	if !thorough {
 		return []mcfg{
@@ -106,6 +131,9 @@ func modelConfigs(thorough bool) []mcfg {
 			{"req", []string{"R", "Rm", "Rmnull", "U"}, 3, 1, false},
 			{"keys", []string{"Kboth", "Kanull", "N", "Mmiss", "Mid"}, 2, 1, false},
 			{"wide", allKinds, 2, 1, false},
+			{"rq1", reqKinds("R", "Rm", "R2", "Rm2", "R3", "Rm3"), 1, 1, false},
+			{"rq2", append(reqKinds("R2"), "Rm2", "Rm2:1b", "Rm2:2n", "Rm2:2a"), 2, 1, false},
+			{"rq3", []string{"R3:1b", "Rm3", "Rm3:2b", "Rm3:3a"}, 3, 1, false},
 		}
 	}
 	return []mcfg{
@@ -118,6 +146,10 @@ func modelConfigs(thorough bool) []mcfg {
 		{"batch2", []string{"Mid", "Malt", "Rm"}, 3, 2, false},
 		{"wide", allKinds, 2, 2, false},
 		{"wide3", []string{"S", "Snull", "Kbc", "N", "Mid", "Malt", "U", "T0"}, 3, 1, false},
+		{"rq1", reqKinds("R", "Rm", "R2", "Rm2", "R3", "Rm3"), 1, 1, false},
+		{"rq2", reqKinds("R2", "Rm2"), 2, 1, false},
+		{"rq2b", append(reqKinds("R3"), "Rm3", "Rm3:1b", "Rm3:2b", "Rm3:2n", "Rm3:3b", "Rm", "Rm:1b"), 2, 2, false},
+		{"rq3", []string{"R3:1b", "R3:2a", "Rm3", "Rm3:1b", "Rm3:2n", "Rm3:3b", "S"}, 3, 1, false},
 	}
 }
 
@@ -187,10 +219,11 @@ func (e *emitted) hasIndividualNil() bool {
 
 func isBatchKind(k string) bool { return strings.HasPrefix(k, "M") || strings.HasPrefix(k, "Rm") }
 
-var batchRes = map[string]bool{"findManyMByIDs": true, "findManyMByAlts": true, "findManyRmByIDs": true}
+var batchRes = map[string]bool{"findManyMByIDs": true, "findManyMByAlts": true, "findManyRmByIDs": true, "findManyRm2ByIDs": true, "findManyRm3ByIDs": true}
 
 var resType = map[string]string{"findSByID": "S", "findKByA": "K", "findKByBAndC": "K", "findNByOid": "N",
-	"findManyMByIDs": "M", "findManyMByAlts": "M", "findRByID": "R", "findManyRmByIDs": "Rm"}
+	"findManyMByIDs": "M", "findManyMByAlts": "M", "findRByID": "R", "findManyRmByIDs": "Rm",
+	"findR2ByID": "R2", "findManyRm2ByIDs": "Rm2", "findR3ByID": "R3", "findManyRm3ByIDs": "Rm3"}
 
 // callKey renders the concrete gate / plan / event key of a resolver call for key index idx
 // (1-based; the driver gives representation j the key value "i<j-1>").
@@ -210,6 +243,33 @@ func concretise(k string, i int, rnd *rand.Rand) map[string]any {
 	c := fmt.Sprintf("c%d", i-1)
 	w := fmt.Sprintf("w%d", i-1)
 	var m map[string]any
+	if base, j, st := splitKind(k); reqFields[base] != nil {
+		// well-formed required values name the index: w "w<i>", n 1000+i, l ["l<i>"]
+		m = map[string]any{"__typename": base, "id": id}
+		for fi, f := range reqFields[base] {
+			var good, bad any
+			switch f {
+			case "w":
+				good, bad = w, []any{map[string]any{"x": 1.0}, []any{map[string]any{"y": "z"}}}[rnd.Intn(2)]
+			case "n":
+				good, bad = float64(1000+i-1), []any{"abc", map[string]any{"x": 1.0}, 1.5}[rnd.Intn(3)]
+			case "l":
+				good, bad = []any{"l" + id[1:]}, []any{[]any{map[string]any{"x": 1.0}}, []any{"l" + id[1:], nil}, map[string]any{"x": 1.0}}[rnd.Intn(3)]
+			}
+			switch {
+			case fi+1 != j:
+				m[f] = good
+			case st == "b":
+				m[f] = bad
+			case st == "n":
+				m[f] = nil
+			}
+		}
+		if rnd.Intn(3) == 0 {
+			m["zq"] = "noise"
+		}
+		return m
+	}
 	switch k {
 	case "S":
 		m = map[string]any{"__typename": "S", "id": id}
@@ -243,10 +303,6 @@ func concretise(k string, i int, rnd *rand.Rand) map[string]any {
 		m = map[string]any{"__typename": "M", "alt": id}
 	case "Mmiss":
 		m = map[string]any{"__typename": "M"}
-	case "R":
-		m = map[string]any{"__typename": "R", "id": id, "w": w}
-	case "Rm":
-		m = map[string]any{"__typename": "Rm", "id": id, "w": w}
 	case "Rmnull":
 		m = map[string]any{"__typename": "Rm", "id": nil, "w": w}
 	case "U":
@@ -269,7 +325,7 @@ func concretise(k string, i int, rnd *rand.Rand) map[string]any {
 	return m
 }
 
-const entQuery = `query($reps:[_Any!]!){_entities(representations:$reps){__typename ... on S{v} ... on K{v} ... on N{v} ... on M{v} ... on R{v z} ... on Rm{v z}}}`
+const entQuery = `query($reps:[_Any!]!){_entities(representations:$reps){__typename ... on S{v} ... on K{v} ... on N{v} ... on M{v} ... on R{v z} ... on Rm{v z} ... on R2{v z} ... on Rm2{v z} ... on R3{v z} ... on Rm3{v z}}}`
 
 type job struct {
 	E       *emitted       `json:"emitted"`
@@ -312,7 +368,9 @@ func (e *emitted) scenario(id string, rnd *rand.Rand, dup []int) *vlib.Scenario 
 			plan[r] = ur.Outcome{K: o}
 		}
 	}
-	s := &vlib.Scenario{ID: id, Query: entQuery, Vars: map[string]any{"reps": reps}, Plan: plan}
+	// through handler.Server + the POST transport: variables are decoded as a router's request is
+	// (json.Number for numbers), which the Int-typed required field needs
+	s := &vlib.Scenario{ID: id, Query: entQuery, Vars: map[string]any{"reps": reps}, Plan: plan, Mode: "http"}
 	if dup == nil {
 		s.Sched = "order"
 		var keys []string
@@ -385,8 +443,63 @@ func parseIdx(s, prefix string) int {
 	return -2
 }
 
+// reqIndex maps the echo of the required values ("w3|1003|l3", "null" for a null one) to the
+// 1-based index they name: 0 = none carried, -2 = zero values / values of different
+// representations, -1 = the null pattern is not that of the representation they name.
+func reqIndex(tn, z string, kinds []string, mapIdx func(int) int) int {
+	fs := reqFields[tn]
+	parts := strings.Split(z, "|")
+	if len(parts) != len(fs) {
+		return -2
+	}
+	idx := 0
+	for j, p := range parts {
+		k := 0
+		switch {
+		case p == "null":
+			continue
+		case fs[j] == "w":
+			k = parseIdx(p, "w")
+		case fs[j] == "l":
+			k = parseIdx(p, "l")
+		case fs[j] == "n":
+			n, err := strconv.Atoi(p)
+			if err != nil || n < 1000 {
+				return -2 // a zero value
+			}
+			k = n - 1000 + 1
+		}
+		if k <= 0 || (idx != 0 && k != idx) {
+			return -2
+		}
+		idx = k
+	}
+	if idx == 0 {
+		return 0
+	}
+	// the fields that are null must be exactly the nullable ones representation idx leaves out
+	for ri, kn := range kinds {
+		if mapIdx(ri+1) != idx {
+			continue
+		}
+		base, j, st := splitKind(kn)
+		if base != tn {
+			continue
+		}
+		ok := true
+		for fi, p := range parts {
+			wantNull := fi+1 == j && (st == "n" || st == "a")
+			ok = ok && (p == "null") == wantNull
+		}
+		if ok {
+			return idx
+		}
+	}
+	return -1
+}
+
 // abstractElem maps one element of the `_entities` list to (resolver, key index, requires index).
-func abstractElem(v any) elem {
+func abstractElem(v any, kinds []string, mapIdx func(int) int) elem {
 	m, ok := v.(map[string]any)
 	if !ok || v == nil {
 		return elem{}
@@ -406,17 +519,21 @@ func abstractElem(v any) elem {
 	if resType[r] != tn {
 		e.R = "typename-mismatch:" + tn + "/" + r
 	}
-	if tn == "R" || tn == "Rm" {
+	if reqFields[tn] != nil {
 		z, _ := m["z"].(string)
-		e.W = parseIdx(z, "w")
-		if e.W <= 0 {
-			e.W = -1
-		}
+		e.W = reqIndex(tn, z, kinds, mapIdx)
 	}
 	return e
 }
 
-func observe(s *vlib.Scenario, n int) (*observed, string) {
+func observe(s *vlib.Scenario, kinds []string, dup []int) (*observed, string) {
+	n := len(kinds)
+	mapIdx := func(i int) int {
+		if dup != nil && i >= 1 && i <= len(dup) {
+			return dup[i-1]
+		}
+		return i
+	}
 	r := s.Result
 	if len(r.Resps) != 1 {
 		return nil, fmt.Sprintf("%d responses", len(r.Resps))
@@ -433,7 +550,7 @@ func observe(s *vlib.Scenario, n int) (*observed, string) {
 		return nil, fmt.Sprintf("_entities has %d elements for %d representations", len(lst), n)
 	}
 	for _, v := range lst {
-		o.List = append(o.List, abstractElem(v))
+		o.List = append(o.List, abstractElem(v, kinds, mapIdx))
 	}
 	o.Errs = len(r.Resps[0].Errs)
 	for _, e := range r.Resps[0].Errs {
@@ -457,6 +574,7 @@ var devKey = map[string]string{
 	"first-invalid": "multi-invalid-first-rep-fails-group",
 	"short":         "multi-short-result-null-without-error",
 	"nil-requires":  "multi-nil-entity-requires-panic-loses-rest",
+	"bad-requires":  "multi-malformed-requires-loses-rest",
 }
 
 // judge compares the observation with the property's prescription (ideal) and with the model of
@@ -593,7 +711,7 @@ func linesOf(jobs map[string]*job) func(*vlib.Scenario) [][]byte {
 				add(map[string]any{"e": "Recover"})
 			}
 		}
-		ob, _ := observe(s, len(e.Reps))
+		ob, _ := observe(s, e.Reps, nil)
 		lst := []elem{}
 		if ob != nil {
 			lst = append(lst, ob.List...)
@@ -844,7 +962,11 @@ func main() {
 		}
 		var scs []*vlib.Scenario
 		for i, j := range allOK {
-			if j.Variant != f.V.Name || i%len(fvs) != indexOf(fvs, f.V.Name) {
+			stride := len(fvs)
+			if !thorough {
+				stride *= 2 // quick tier: every second behaviour
+			}
+			if j.Variant != f.V.Name || i%stride != indexOf(fvs, f.V.Name) {
 				continue
 			}
 			scs = append(scs, j.S)
@@ -856,7 +978,7 @@ func main() {
 		pinEdit := m.edit(f.Inline)
 		fixEdit := func(cfg string) string {
 			cfg = pinEdit(cfg)
-			for _, k := range []string{"FixFirstRep", "FixShort", "FixNilReq"} {
+			for _, k := range []string{"FixFirstRep", "FixShort", "FixNilReq", "FixBadReq"} {
 				cfg = strings.Replace(cfg, k+" = FALSE", k+" = TRUE", 1)
 			}
 			return cfg
@@ -1067,7 +1189,7 @@ func indexOf(fvs []fvariant, name string) int {
 
 func (e *emitted) hasReqKinds() bool {
 	for _, k := range e.Reps {
-		if k == "R" || strings.HasPrefix(k, "Rm") {
+		if strings.HasPrefix(k, "R") {
 			return true
 		}
 	}
@@ -1170,7 +1292,7 @@ func evaluate(c *vlib.Check, j *job, bin string, drift *int) bool {
 			*drift++
 		}
 	}
-	o, problem := observe(s, len(e.Reps))
+	o, problem := observe(s, e.Reps, j.Dup)
 	if o == nil {
 		c.Violate("entities|malformed-response", fmt.Sprintf("%s\n%s", problem, where), j)
 		return false
